@@ -5,7 +5,7 @@ import os
 import lib
 
 MODEL_DEPS = ['CheckLib']
-KERNELS = ('MemoryCache', 'CacheEdge', 'Graph')
+KERNELS = ('MemoryCache', 'CacheEdge', 'Graph', 'CachedColumn', 'CacheColumns')
 TRUSTED = ['Coq 8.16.1 kernel; vm_compute in the Example',
            'tools/translate.py: lock scopes of MemoryCache.get/set/clear (every self._cache use lexically under `with self._lock`), '
            'fresh EvictionCaches per call, CacheEdge.evaluate',
